@@ -74,6 +74,8 @@ C14Fails(vals, k, r) ==
         IN IF ~SameBag(s, m.s) THEN <<"C14.sums_differ_from_rule">>
            ELSE IF r.alg = "roundrobin" /\ BagOfBins(vals, r.lists) # BagOfBins(vals, m.c) THEN <<"C14.bins_differ_from_rule">>
            ELSE <<>>
+\* presentations in which the items carry names (the returned bins are then judged over the names)
+NamedFmts == {"dict", "valueof", "falsydict", "emptystr", "iddict", "npscalardict"}
 
 \* C07: the same call in another presentation (list / numpy array / dict / names+valueof).  base = the first event of the
 \* history with the same algorithm and configuration.
@@ -84,8 +86,8 @@ C07Fails(vals, k, res, e) ==
    IN IF r.out # b.out THEN <<"C07.outcome_differs_between_formats:" \o b.out \o "/" \o r.out>>
       ELSE IF r.out # "ret" THEN <<>>
       ELSE (IF ~r.exact \/ ~b.exact \/ ~SameBag(r.sums, b.sums) THEN <<"C07.sums_differ_between_formats">> ELSE <<>>)
-        \o (IF r.fmt \in {"dict", "valueof"} /\ ~(IdsValid(vals, r) /\ EveryItemOnce(vals, r)) THEN <<"C07.named_result_not_a_partition_of_the_names">> ELSE <<>>)
-        \o (IF r.fmt \in {"dict", "valueof"} /\ IdsValid(vals, r) /\ ~SumsDescribeBins(vals, r) THEN <<"C07.named_bins_do_not_reproduce_sums">> ELSE <<>>)
+        \o (IF r.fmt \in NamedFmts /\ ~(IdsValid(vals, r) /\ EveryItemOnce(vals, r)) THEN <<"C07.named_result_not_a_partition_of_the_names">> ELSE <<>>)
+        \o (IF r.fmt \in NamedFmts /\ IdsValid(vals, r) /\ ~SumsDescribeBins(vals, r) THEN <<"C07.named_bins_do_not_reproduce_sums">> ELSE <<>>)
 
 EventFails(vals, k, r, F) ==
       (IF "C01" \in Active THEN C01Fails(vals, k, r) ELSE <<>>)
